@@ -40,12 +40,17 @@ def targets_for(unit):
     return []
 
 
-def build(cfg):
-    """(Re)build the witness binary against /repo's current tree (incremental)."""
+def build(cfg, costream):
+    """(Re)build the witness binary against /repo's current tree (incremental).  The concurrent-stream
+    family costs ~1.5 min of compile time, so the other families use a lite build (own target dir)."""
     d = os.path.join(VERIF, 'witness') if cfg == 'std' else os.path.join(VERIF, 'witness', 'nostd')
-    env = dict(os.environ, CARGO_NET_OFFLINE='true', CARGO_TARGET_DIR=TARGET)
-    p = subprocess.run(['cargo', 'build', '--offline', '--release'], cwd=d, env=env, capture_output=True, text=True, timeout=1800)
-    exe = os.path.join(TARGET, 'release', 'witness' if cfg == 'std' else 'witness-nostd')
+    target = TARGET if costream else TARGET + '-lite'
+    env = dict(os.environ, CARGO_NET_OFFLINE='true', CARGO_TARGET_DIR=target)
+    cmd = ['cargo', 'build', '--offline', '--release']
+    if not costream:
+        cmd += ['--no-default-features'] + (['--features', 'std'] if cfg == 'std' else [])
+    p = subprocess.run(cmd, cwd=d, env=env, capture_output=True, text=True, timeout=1800)
+    exe = os.path.join(target, 'release', 'witness' if cfg == 'std' else 'witness-nostd')
     if p.returncode != 0 or not os.path.exists(exe):
         return None, p.stderr[-1500:]
     return exe, ''
@@ -58,7 +63,7 @@ def search(prop, failure):
     if not tg:
         return dict(found=False, note='no witness family for unit %s' % failure['unit'])
     cfg = 'std' if failure.get('cfg', 'std') == 'std' else 'nostd'
-    exe, err = build(cfg)
+    exe, err = build(cfg, any(f == 'co_stream' for f, _ in tg))
     if exe is None:
         return dict(found=False, note='witness build failed (does the tree compile?): ' + err)
     tried = []
